@@ -78,6 +78,34 @@ def run(tier, prop=PROP, module=MODULE, files=FILES):
             ck.violation(dict(site=site, clause="envelope-random", direction=direction), dict(rec, bound=3.0 * wb),
                          f"{rec['method']} on a {rec['fam']} n={rec['n']} dr={rec['dr']}: error {rec['error']:.3g} of the peak, "
                          f"worst frozen case of this method/family {wb:.3g}")
+    # the radial grid may be given in any unit of length (pixels, micrometres, metres): the error relative to the peak is the same,
+    # and the absolute scale follows the unit (closed-form Gaussian pair on uniform and stretched explicit grids, `direct`)
+    import abel
+    from harness.methods import quiet
+    for n_ in (61, 101):
+        i_ = np.arange(n_, dtype=float)
+        for gname, rpx in (("uniform", i_ * 0.8), ("stretched", i_ * (1 + 0.004 * i_))):
+            wpx = rpx[-1] / 4
+            errs = {}
+            for unit in (1.0, 1e-6, 1e-3, 1e4):
+                r_, w_ = rpx * unit, wpx * unit
+                src = np.exp(-(r_ / w_) ** 2)
+                prj = np.sqrt(np.pi) * w_ * src
+                ck.count(("S.units", gname, n_, unit), suite="S.units")
+                try:
+                    if direction == "forward":
+                        got = quiet(abel.direct.direct_transform, src, r=r_, direction="forward", backend="python")
+                        errs[unit] = float(np.abs(got - prj)[2:-4].max() / prj.max())
+                    else:
+                        got = quiet(abel.direct.direct_transform, prj, r=r_, direction="inverse", backend="python")
+                        errs[unit] = float(np.abs(got - src)[2:-4].max() / src.max())
+                except Exception as e:
+                    ck.violation(dict(site="direct", clause="exception", direction=direction), dict(grid=gname, n=n_, unit=unit), f"{type(e).__name__}: {e}")
+            if errs and (max(errs.values()) - min(errs.values()) > 1e-6 or max(errs.values()) > 0.05):
+                worst_u = max(errs, key=errs.get)
+                ck.violation(dict(site="direct", clause="length-unit", direction=direction), dict(grid=gname, n=n_, errors={str(k): v for k, v in errs.items()}),
+                             f"direct {direction} of a Gaussian on the {gname} explicit grid: error relative to the peak is {errs[worst_u]:.3g} with the grid in units of "
+                             f"{worst_u:g} but {min(errs.values()):.3g} in another unit")
     ck.notes.append(f"random stream families: {dist}")
     worst = sorted(((v, k) for k, v in measured.items() if k.startswith(("inverse" if prop == "C01" else "forward") + "|") and isinstance(v, float)),
                    reverse=True)[:5]
